@@ -68,4 +68,5 @@ pub fn run(ctx: &Ctx) {
                     Some(v) => { let ok = U256::from_nat(v).map_or(false, |x| !x.is_zero() && x < n && x.to_be() == sec); if !ok { ctx.violation(format!("{P}:new:{class}:different-key"), format!("a {}-byte string is taken as key {} which is not the same big-endian integer", bytes.len(), explore::hex(&sec)), replay) } } } }
         }
     });
+    crate::hist::histories(ctx, P, "key-histories", "PrivateKey::new / public / address, a sequence on one fresh thread", crate::hist::c04_ops());
 }
